@@ -391,9 +391,8 @@ func ruleSpanCoversRequest(c *Ctx, id string) {
 					if pathOf(x.X).Last() != fmF {
 						return
 					}
-					exact++
-					if p, ok := stripConv(x.Index).(*ssa.Parameter); !ok || p != n {
-						badExact = "the exact-size lookup at " + c.P.Position(x.Pos()) + " is not keyed by the requested page count"
+					if p, ok := stripConv(x.Index).(*ssa.Parameter); ok && p == n && x.CommaOk {
+						exact++
 					}
 				case *ssa.Next:
 					// iteration over freemaps: key = span size
@@ -450,7 +449,10 @@ func ruleSpanCoversRequest(c *Ctx, id string) {
 				}
 			})
 		}
-		c.check(id+":freelist.(*hashMap).Allocate:exact-match-keyed-by-n", al, al.Pos(), "the exact-size path looks the span up under the requested page count", exact >= 1 && badExact == "", badExact)
+		if exact == 0 {
+			badExact = "no lookup of freemaps under the requested page count"
+		}
+		c.check(id+":freelist.(*hashMap).Allocate:exact-match-keyed-by-n", al, al.Pos(), "the exact-size path looks the span up under the requested page count", exact >= 1, badExact)
 		c.check(id+":freelist.(*hashMap).Allocate:larger-span-covers-n", al, al.Pos(), "while iterating over the span sizes, an id is handed out exactly for sizes >= n (tabulated for n=3 over sizes 1,2,3,4,9)", larger >= 1 && badLarger == "", badLarger)
 	})
 }
@@ -974,7 +976,7 @@ func ruleFreelistReadVerbatim(c *Ctx, id string) {
 // can no longer be found by its end page, later releases are not merged with it and a run that exists is reported
 // as unavailable although the array backend finds it (seed C09d).
 func ruleSpanRemovalsPrecedeInsertions(c *Ctx, id string) {
-	c.rule(id, "span-removals-precede-insertions", 2, func() {
+	c.rule(id, "span-removals-precede-insertions", 1, func() {
 		n := 0
 		for _, fn := range c.P.FnsIn(freelistPath) {
 			adds := callsIn(fn, "freelist.(*hashMap).addSpan")
@@ -1099,5 +1101,89 @@ func ruleEveryCachedChildSpilled(c *Ctx, id string) {
 			}
 		}
 		c.check(id+":(*Bucket).spill:every-child", fn, next.Pos(), "every cached child bucket is spilled recursively or written inline, on every path of the loop body", bad == "", bad)
+	})
+}
+
+
+// ---------------------------------------------------------------------------------------------
+// C09.R14 / C13.R14  span-indexes-updated-together
+//
+// The hash-map backend keeps three indexes of the same spans: freemaps (by size), forwardMap (by first page) and
+// backwardMap (by last page). A function that edits one of them for a span must edit all three (addSpan and delSpan
+// do); a "shrink in place" that re-keys forwardMap and freemaps but leaves backwardMap at the old size makes a later
+// merge pull live pages back into a free span — only on this backend, so content depends on FreelistType (seed C13d).
+func ruleSpanIndexesTogether(c *Ctx, id string) {
+	c.rule(id, "span-indexes-updated-together", 2, func() {
+		fields := map[string]*types.Var{}
+		for _, n := range []string{"freemaps", "forwardMap", "backwardMap"} {
+			fields[n] = c.P.lookupField(freelistPath, "hashMap", n)
+			if fields[n] == nil {
+				panic(anchorErr{"hashMap." + n})
+			}
+		}
+		for _, fn := range c.P.FnsIn(freelistPath) {
+			touched := map[string]bool{}
+			eachInstr(fn, func(in ssa.Instruction) {
+				var m ssa.Value
+				switch x := in.(type) {
+				case *ssa.MapUpdate:
+					m = x.Map
+				case *ssa.Call:
+					if calleeOf(x).Builtin == "delete" {
+						m = x.Call.Args[0]
+					}
+				}
+				if m == nil {
+					return
+				}
+				fp := pathOf(m)
+				for n, f := range fields {
+					if fp.Has(f) {
+						touched[n] = true
+					}
+				}
+				// freemaps[size][start] = ... : the inner map is a lookup in freemaps
+				for _, l := range provenance(m, provOpts{}) {
+					if lk, ok := l.V.(*ssa.Lookup); ok && pathOf(lk.X).Last() == fields["freemaps"] {
+						touched["freemaps"] = true
+					}
+				}
+			})
+			if len(touched) == 0 {
+				continue
+			}
+			var missing []string
+			for n := range fields {
+				if !touched[n] {
+					missing = append(missing, n)
+				}
+			}
+			sort.Strings(missing)
+			c.check(id+":"+shortFn(fn)+":all-three", fn, fn.Pos(), "a function that edits one span index (freemaps / forwardMap / backwardMap) edits all three", len(missing) == 0, "not updated: "+strings.Join(missing, ", "))
+		}
+	})
+}
+
+// ---------------------------------------------------------------------------------------------
+// C05.R8  descent-compares-at-every-level
+//
+// search() finds the leaf for a key by comparing at EVERY level: a branch key is only a lower bound for its subtree
+// ("separator"), and inside a write transaction it can be stale (a smaller key inserted below it is reflected in the
+// parent only at commit). A shortcut "the seek key equals this branch key, so it is the first key of the subtree"
+// therefore returns the wrong element under uncommitted inserts (seed C05e). Every return of searchNode / searchPage
+// must be preceded by the recursive search of the chosen child.
+func ruleDescentComparesEveryLevel(c *Ctx, id string) {
+	c.rule(id, "descent-compares-at-every-level", 2, func() {
+		for _, name := range []string{"bbolt.(*Cursor).searchNode", "bbolt.(*Cursor).searchPage"} {
+			fn := c.fn(name)
+			r := reach(nil, []*ssa.BasicBlock{fn.Blocks[0]}, func(in ssa.Instruction) bool { return isCallTo(in, "bbolt.(*Cursor).search") }, nil)
+			bad := ""
+			for _, ret := range returnsOf(fn) {
+				if r[ret] {
+					bad = "the return at " + c.P.Position(ret.Pos()) + " is reachable without searching the chosen child"
+				}
+			}
+			c.check(id+":"+name+":recurses", fn, fn.Pos(), "every return is preceded by c.search(key, <child>) — no level is skipped on the strength of a separator key", bad == "", bad)
+		}
 	})
 }
